@@ -34,6 +34,10 @@ pub enum RAct {
     CopyOut(u8),
     /// split() / split_to(code) and convert the part into a Vec<u8> (code 9 = split())
     SplitVec(u8),
+    /// split_off(0): the part takes everything, the recycling handle keeps an empty window at the front
+    SplitOffAll(bool),
+    /// part = split(); buf.unsplit(part): the consumed part is put back onto the (empty, still roomy) remainder
+    SplitBack,
 }
 
 pub enum Part {
@@ -70,6 +74,9 @@ pub struct Params {
     pub unsplit: bool,
     /// refill through every appending entry point, not only reserve + extend_from_slice
     pub appends: bool,
+    /// also consume by split_off(0) and by split() + unsplit-back (kept out of the fixpoint searches: they make the
+    /// capacity window take every value, the graph stays finite but no longer closes within the budget)
+    pub splits: bool,
     pub parity_odd: bool,
     pub max_states: usize,
     /// wall-clock budget of one fixpoint search (a search that does not close in time is reported as non-exhaustive)
@@ -148,6 +155,11 @@ impl Sys {
                     }
                 }
                 v.push(RAct::SplitVec(9));
+                if p.splits {
+                    v.push(RAct::SplitOffAll(false));
+                    v.push(RAct::SplitOffAll(true));
+                    v.push(RAct::SplitBack);
+                }
                 let x = resolve(1, l, p.quantum);
                 if x < l {
                     v.push(RAct::SplitVec(1));
@@ -320,6 +332,23 @@ impl Sys {
                 let at = if c == 3 { l } else { resolve(c, l, p.quantum) };
                 let part = oracle::subject(|| Part::B(self.buf.copy_to_bytes(at)));
                 self.push_part(part, p.k);
+            }
+            RAct::SplitOffAll(f) => {
+                let part = oracle::subject(|| {
+                    let m = self.buf.split_off(0);
+                    if f {
+                        Part::B(m.freeze())
+                    } else {
+                        Part::M(m)
+                    }
+                });
+                self.push_part(part, p.k);
+            }
+            RAct::SplitBack => {
+                oracle::subject(|| {
+                    let part = self.buf.split();
+                    self.buf.unsplit(part);
+                });
             }
             RAct::SplitVec(c) => {
                 let l = self.buf.len();
@@ -701,6 +730,9 @@ pub fn periodic(p: &Params, period: usize, rounds: usize, rep: &mut Report) -> (
             }
         }
         alpha.extend([RAct::CopyOut(3), RAct::CopyOut(1), RAct::SplitVec(9), RAct::SplitVec(1)]);
+        if p.splits {
+            alpha.extend([RAct::SplitOffAll(false), RAct::SplitBack]);
+        }
     }
     for f in [false, true] {
         alpha.push(RAct::Split(f));
